@@ -77,6 +77,23 @@ def check_case(acc, case):
             back = guarded("re-encode(%s)" % name, lambda o=o: b"".join(ns.Binary.unmarshal(obj_to_events(o))))
             if back is not None and back != case.b:
                 acc.violation(fp("object-reencode", of=name), d, f"re-encoding the object gives {back.hex()[:80]}")
+    # a failed response has no handle / parameter area: it can be rebuilt without the command code, too
+    if case.root == "Response" and any(e[1] == ".responseCode" and e[3] not in (0, "...") for e in r.events):
+        o3 = guarded("events_to_obj(failed response, no command code)", lambda: events_to_obj(list(r.raw)))
+        if o3 is not None and not (o3 == r.obj):
+            acc.violation(fp("failed-response-without-command-code"), d, "events_to_obj without a command code gives a different object for a failed response")
+    # Canonical(obj): the object stays retrievable whatever is read first
+    for order in ("events-then-object", "object-then-events", "eager"):
+        def canon_obj(order=order):
+            c = Canonical(r.obj, lazy=order != "eager")
+            if order == "object-then-events":
+                return c.object, [impl.norm_ev(e) for e in c.events]
+            ev = [impl.norm_ev(e) for e in c.events]
+            return c.object, ev
+
+        res = guarded("Canonical(obj) " + order, canon_obj)
+        if res is not None and (not (res[0] == r.obj) or res[1] != r.events):
+            acc.violation(fp("canonical-object-access-order", order=order), d, f"Canonical(obj), {order}: object {'lost / different' if not (res[0] == r.obj) else 'kept'}, events {'differ' if res[1] != r.events else 'equal'}")
     # Canonical facade
     if not case.enc:
         T = ns.TYPES[case.root]
